@@ -38,7 +38,7 @@ def make_service():
     return svc, sent, state
 
 
-def one(svc, sent, state, row, rng, via_bytes):
+def one(svc, sent, state, row, rng, via_bytes, dictionary=False):
     mc, svc_ok, iface_ok, known, mt, rc, handler = row
     sid = SID if svc_ok else rng.choice([SID ^ 1, 0, 0xFFFF, SID + 0x100])
     iv = IV if iface_ok else rng.choice([IV + 1, 0, 0xFF, IV - 1])
@@ -46,6 +46,12 @@ def one(svc, sent, state, row, rng, via_bytes):
     cid, sess = rng.choice([0, 1, 0xFFFF, rng.randint(0, 0xFFFF)]), rng.choice([0, 1, 0xFFFF, rng.randint(0, 0xFFFF)])
     payload = bytes(rng.randint(0, 255) for _ in range(rng.choice([0, 0, 1, 5, 40])))
     state["hpayload"] = bytes(rng.randint(0, 255) for _ in range(rng.choice([0, 1, 3, 20])))
+    if dictionary:       # values the SOME/IP specification gives a meaning elsewhere (magic cookies of the TCP binding, SD): here they
+        # are ids like any other -- a message for another service with another interface version and an unknown method
+        sid, iv = 0xFFFF, 1
+        mid = rng.choice([0x0000, 0x8000, 0x8100])
+        cid, sess = rng.choice([(0xDEAD, 0xBEEF), (0xDEAD, 0xBEEF), (0, 1)])
+        payload = b"" if rng.random() < 0.8 else b"\x00"
     msg = hdr.SOMEIPHeader(service_id=sid, method_id=mid, client_id=cid, session_id=sess, interface_version=iv,
                            message_type=hdr.SOMEIPMessageType(mt), return_code=hdr.SOMEIPReturnCode(rc), payload=payload)
     sender = rng.choice([("192.0.2.7", 40000), ("2001:db8::7", 40001, 0, 0), ("192.0.2.8", 1)])
@@ -92,6 +98,9 @@ def check(ctx):
     for row in rows:
         for k in range(per_row):
             recs.append(one(svc, sent, state, row, rng, via_bytes=(k % 2 == 0)))
+        if not (row[1] or row[2] or row[3]) and row[6] == "bytes":
+            for k in range(3):
+                recs.append(one(svc, sent, state, row, rng, via_bytes=(k % 2 == 0), dictionary=True))
     verdicts, st = funcpass.run("Service", "ServiceVerdict", recs)
     bad = 0
     for r, v in zip(recs, verdicts):
